@@ -33,12 +33,13 @@ Inductive case :=
 | CPingOut (texts : list (list N)) (obs : outcome) (replies : N)
 | CHiveFind (base requester : list N) (m : find_node_req) (obs : outcome) (npeers : Z)
 | CHivePeers (base : list N) (ping_ok : bool) (ps : list hive_peer) (obs : outcome) (added : Z)
+| CHiveSeq (base requester : list N) (added : list (list N)) (m : find_node_req) (obs : outcome) (npeers : Z)
 | CCIResp (st : ci_state) (m : ci_resp) (obs : outcome)
 | CCIReq (self : list N) (m : ci_req) (obs : outcome)
 | CMcHandshake (gids : list (list N)) (obs : outcome)
 | CMcNotify (status : Z) (gids : list (list N)) (obs : outcome)
-| CMcFindGroup (m : find_group_req) (joined : bool) (obs : outcome)
-| CMcMulticast (self origin gid : list N) (obs : outcome)
+| CMcFindGroup (m : find_group_req) (served : bool) (known joined : list (list N)) (obs : outcome)
+| CMcMulticast (self origin gid : list N) (has_group : bool) (known joined : list (list N)) (obs : outcome)
 | CMcMessage (joined subscribed : bool) (m : group_msg) (second_frame : bool) (obs : outcome)
 | CRtReq (self dest : list N) (paths : list rt_path) (nu : N) (obs : outcome)
 | CRtResp (self dest : list N) (paths : list rt_path) (nu : N) (obs : outcome)
@@ -65,6 +66,9 @@ Fixpoint mk_peers (base : list N) (pos : list nat) (salt : N) : list (list N) :=
   match pos with [] => [] | p :: r => flip_at base p salt :: mk_peers base r (salt + 1) end.
 Definition conn_peers base := mk_peers base conn_pos 1.
 Definition known_only base := mk_peers base known_pos 64.
+(** after a Peers reply filed [added] (overlays of any length) into the known peers *)
+Definition hive_find_seq base requester added m :=
+  hive_find_node MaxPO Consts.hive2_maxPeersLimit requester (conn_peers base) (conn_peers base ++ known_only base ++ added) (Some m).
 Definition hive_find base requester m :=
   hive_find_node MaxPO Consts.hive2_maxPeersLimit requester (conn_peers base) (conn_peers base ++ known_only base) (Some m).
 
@@ -86,12 +90,13 @@ Definition model_out (c : case) : outcome :=
   | CPingOut texts _ _ => ping_out texts
   | CHiveFind base rq m _ _ => res_outcome (hive_find base rq m)
   | CHivePeers base ping ps _ _ => res_outcome (hive_peers MaxPO base ping (Some ps))
+  | CHiveSeq base rq added m _ _ => res_outcome (hive_find_seq base rq added m)
   | CCIResp st m _ => chunkinfo_resp true st true (Some m)
   | CCIReq self m _ => chunkinfo_req self true (Some m)
   | CMcHandshake gids _ => mc_handshake MaxPO [] [] (Some gids)
   | CMcNotify st gids _ => mc_notify MaxPO [] [] (Some (st, gids))
-  | CMcFindGroup m _ _ => mc_find_group Consts.multicast_maxTTL false (Some m)   (* the harness groups have no members *)
-  | CMcMulticast self o g _ => mc_multicast self o g (Some tt)
+  | CMcFindGroup m served kn jn _ => mc_find_group Consts.multicast_maxTTL served kn jn (Some m)
+  | CMcMulticast self o g has kn jn _ => mc_multicast self o g has kn jn (Some tt)
   | CMcMessage j sb m sf _ => mc_message true j sb (Some m) sf
   | CRtReq self d ps _ _ => rt_req (Z.to_nat Consts.routetab_MaxTTL) self (Some (d, ps))
   | CRtResp self d ps _ _ => rt_resp (Z.to_nat Consts.routetab_MaxTTL) self (Some (d, ps))
@@ -106,6 +111,7 @@ Definition model_aux (c : case) : Z :=
   | CPingIn texts _ _ => Z.of_N (snd (ping_in texts))
   | CHiveFind base rq m _ _ => res_value (-1)%Z (hive_find base rq m)
   | CHivePeers base ping ps _ _ => res_value 0%Z (hive_peers MaxPO base ping (Some ps))
+  | CHiveSeq base rq added m _ _ => res_value (-1)%Z (hive_find_seq base rq added m)
   | _ => 0%Z
   end.
 Definition obs_aux (c : case) : Z :=
@@ -113,6 +119,7 @@ Definition obs_aux (c : case) : Z :=
   | CPingIn _ _ n => Z.of_N n
   | CHiveFind _ _ _ _ n => n
   | CHivePeers _ _ _ _ n => n
+  | CHiveSeq _ _ _ _ _ n => n
   | _ => 0%Z
   end.
 Definition obs_out (c : case) : outcome :=
@@ -120,9 +127,9 @@ Definition obs_out (c : case) : outcome :=
   | CHsOut _ _ _ obs => obs
   | CHsIn _ _ _ _ _ _ obs => obs
   | CTrCheque _ _ _ _ obs | CTrInitIn _ _ _ _ obs | CTrInitOut _ _ _ _ obs => obs
-  | CPingIn _ obs _ | CPingOut _ obs _ | CHiveFind _ _ _ obs _ | CHivePeers _ _ _ obs _ => obs
+  | CPingIn _ obs _ | CPingOut _ obs _ | CHiveFind _ _ _ obs _ | CHivePeers _ _ _ obs _ | CHiveSeq _ _ _ _ obs _ => obs
   | CCIResp _ _ obs | CCIReq _ _ obs => obs
-  | CMcHandshake _ obs | CMcNotify _ _ obs | CMcFindGroup _ _ obs | CMcMulticast _ _ _ obs | CMcMessage _ _ _ _ obs => obs
+  | CMcHandshake _ obs | CMcNotify _ _ obs | CMcFindGroup _ _ _ _ obs | CMcMulticast _ _ _ _ _ _ obs | CMcMessage _ _ _ _ obs => obs
   | CRtReq _ _ _ _ obs | CRtResp _ _ _ _ obs | CRtUnderlay _ _ obs | CRtConnChain _ _ _ _ obs | CRtFindUnderlay _ obs => obs
   | CRetrieval _ _ _ _ _ _ obs => obs
   end.
